@@ -26,6 +26,9 @@ pub struct Rep {
     pub samples: BTreeMap<String, Vec<Value>>,
     /// set by the first finding: later comparisons in the same case would only cascade
     pub diverged: bool,
+    /// prepended to the signature of every later finding (marks cases in which a known-defect
+    /// precondition was deliberately produced)
+    pub sig_prefix: String,
     ord: u64,
 }
 
@@ -35,6 +38,14 @@ impl Rep {
             case_seed,
             ..Default::default()
         }
+    }
+
+    /// A scratch report for a nested oracle call; findings are re-attributed by the caller.
+    pub fn sub(&self) -> Rep {
+        let mut r = Rep::new(self.case_seed);
+        r.op_index = self.op_index;
+        r.sig_prefix = self.sig_prefix.clone();
+        r
     }
 
     /// Record one oracle evaluation for `prop`.
@@ -60,7 +71,11 @@ impl Rep {
         if self.findings.len() < 64 {
             self.findings.push(Finding {
                 prop: prop.to_string(),
-                sig: sig.to_string(),
+                sig: if !self.sig_prefix.is_empty() {
+                    format!("{}{}", self.sig_prefix, sig.replace(self.sig_prefix.as_str(), ""))
+                } else {
+                    sig.to_string()
+                },
                 detail,
                 case_seed: self.case_seed,
                 op_index: self.op_index,
